@@ -95,6 +95,10 @@ func execC13(seq []int, faults []int, keepLog bool) (res c13run, conn *pgfake.Co
 	conn = srv.Connect()
 	conn.KeepLog = keepLog
 	conn.FailAt(faults...)
+	// every other fault set fails with an error that wraps context.Canceled
+	if h := len(seq)*31 + len(faults); len(faults) > 0 && (h+faults[0])%2 == 0 {
+		conn.CancelIdentity = true
+	}
 	store := postgres.NewPgDb().WithConnection(conn).WithSchema("vvise")
 	store.SetSession("ses")
 	store.SetPrefix(db.DATATYPE_USERDATA)
